@@ -368,22 +368,34 @@ where
         let (new_laidx, n_pstack) =
             self.parser
                 .lr_cactus(None, laidx, laidx + 1, n.pstack.clone(), &mut None);
-        // Shifting a lexeme is progress even if the stack ends up with the same states as before
-        // (e.g. `L: L 'x' | ;` reduces and then shifts into the state it started in).
-        if new_laidx > laidx || n.pstack != n_pstack {
-            let n_repairs = if new_laidx > laidx {
-                n.repairs.child(RepairMerge::Repair(Repair::Shift))
-            } else {
-                n.repairs.clone()
-            };
-            let nn = PathFNode {
-                pstack: n_pstack,
-                laidx: new_laidx,
-                repairs: n_repairs,
-                cf: n.cf,
-            };
-            nbrs.push((nn.cf, nn));
-        }
+        let n_repairs = if new_laidx > laidx {
+            // Shifting a lexeme is progress even if the stack ends up with the same states as
+            // before (e.g. `L: L 'x' | ;` reduces and then shifts into the state it started in).
+            n.repairs.child(RepairMerge::Repair(Repair::Shift))
+        } else if n.pstack != n_pstack
+            && matches!(
+                self.parser
+                    .stable
+                    .action(*n_pstack.val().unwrap(), self.parser.next_tidx(laidx)),
+                Action::Accept
+            )
+        {
+            // No lexeme was shifted: the parser reduced and then stopped at an accept or an error
+            // cell. Those reductions were chosen by the lookahead at `laidx`, so they are only part
+            // of a valid repair if that lookahead really comes next, i.e. if the parser can now
+            // accept. Carrying on from an error cell with inserts or deletes would change the
+            // lookahead the reductions were made under, and the repair would not replay.
+            n.repairs.clone()
+        } else {
+            return;
+        };
+        let nn = PathFNode {
+            pstack: n_pstack,
+            laidx: new_laidx,
+            repairs: n_repairs,
+            cf: n.cf,
+        };
+        nbrs.push((nn.cf, nn));
     }
 
     /// Convert the output from `astar_all` into something more usable. Returns `None` if it timed
